@@ -167,7 +167,11 @@ CLAIMED["C08"] = dict(
          "for one dense step, for the Ndense steps of a time-axis step and hence for every stored time, every expansion order, "
          "step, Hamiltonian and relaxation tensor (apply_elemStep, apply_denseT, apply_eq_propagate; the generator acts on the state "
          "as a 4-index tensor, genTensor_linear, and so does every Taylor step, taylorStep_actsAs). Trace and Hermiticity of "
-         "U then follow from those of the propagated states (C02); as statements about U they are observed, not separately proved.",
+         "U then follow from those of the propagated states (C02); as statements about U they are observed, not separately proved. "
+         "With a pure-dephasing factor D (|D| <= 1) applied after every internal step, m steps (D T_L(hG))^m stay within the same "
+         "truncation bound of the untruncated steps (D exp(hG))^m (dephased_steps_within_truncation_bound, refinement_with_dephasing; "
+         "evaluated numerically by the oracle `pure-dephasing:refine`). Hamiltonians with rotating-wave blocks: U applied vs direct "
+         "propagation in the rotating frame and after conversion to the laboratory frame (requested once and again) by the oracle.",
     note="Lean kernel + standard axioms; model validated on generated inputs; scipy expm / spectral norms in the oracle.",
     technique="Lean 4 monoid-power proofs + tensordot associativity + Mathlib exponential bound + correspondence",
     ref="DESIGN.md §5 C08")
